@@ -564,6 +564,20 @@ class Body:
             if o and o[0] == "discr" and isinstance(o[1], tuple) and o[1] and o[1][0] in ("field", "downcast"):
                 # the discriminant of a value built on this path and taken apart again: `(Ready(Ok(x)) as Ready).0`
                 o = ("discr", simplify(o[1])) + tuple(o[2:])
+            if o[0] == "discr" and isinstance(o[1], tuple) and o[1] and o[1][0] == "call":
+                # `?` applied to a value whose variant is known on this path: the failure value a failed `?` produced
+                # (from_residual) or a literal Ok / Err / Some / None
+                x = o[1]
+                via_branch = (x[1] or "").endswith("ops::try_trait::Try::branch") and len(x[3]) == 1
+                y = simplify(x[3][0]) if via_branch else x
+                if isinstance(y, tuple) and y and y[0] == "call" and (y[1] or "").endswith("FromResidual::from_residual"):
+                    head = (y[2] or "").split(" as ")[0]
+                    if "result::Result" in head:
+                        return ("const", 1, None, None)                      # Err / Break
+                    if "option::Option" in head:
+                        return ("const", 1 if via_branch else 0, None, None)      # None is variant 0; `?` on it breaks
+                if via_branch and isinstance(y, tuple) and y and y[0] == "agg" and y[1][0] == "adt" and y[1][1] in ("core::result::Result", "core::option::Option"):
+                    return ("const", 0 if y[1][3] in ("Ok", "Some") else 1, None, None)
             if o[0] == "discr" and isinstance(o[1], tuple) and o[1][0] == "agg" and o[1][1][0] == "adt":
                 en = self.mir.enums.get(o[1][1][1])
                 if en:
